@@ -18,13 +18,13 @@ def run(ctx):
         rule=("all ordered pairs (source, target) over {strided, morton<use_bmi2=true>, morton<false>, hilbert(N=2)} (identity pairs included), "
               "N 1..4, (storage, M) in {(float,1),(double,3)}: EVERY extent vector in 1..B_N (64/12/6/4 quick, 256/24/10/6 thorough); source "
               "filled with a unique id per cell component; checked: converted field reports the same extents, holds the same value at every "
-              "lattice coordinate, has enough storage; the source is unchanged and shares no storage with the copy; A->B->A reproduces values, "
-              "extents and storage length; move-conversion. Whole stacks affine<I1<L1<array>>> -> affine<I2<L2<array>>> (I in {nearest, linear}) "
+              "lattice coordinate; the source is unchanged and shares no storage with the copy; A->B->A reproduces values and extents; "
+              "move-conversion. Whole stacks affine<I1<L1<array>>> -> affine<I2<L2<array>>> (I in {nearest, linear}) "
               "with a random transform: transform and extents preserved, every lattice value equal at the storage-order level and through the "
               "whole stack with the identity transform.  Host array -> cuda_device_array compiled against a host shim of the CUDA runtime "
               "(malloc/memcpy/free, counted) under ASan.  non-trivial: different source and target layers and extents not a power-of-two cube; "
               "distinct = hash of (pair, extents)"),
-        assumptions=["the innermost array length is not compared across different orders (curves pad to a power of two); only after the round trip",
+        assumptions=["the innermost array length is never asserted (any amount covering the largest curve position is correct; C18 checks that bound, ASan every access)",
                      "padding cells are never read by the oracle",
                      "CUDA path: host shim only - exercises the conversion constructor and index arithmetic, says nothing about a real device"],
         exhaustive=True, extra_coverage={"exhaustive_scope": "all extent vectors up to B_N for every pair"})
